@@ -237,7 +237,7 @@ static std::string describe(World *w, const Bytes &b)
 	if (b.size() >= 4 && b[0] == 0x10 && b[1] == 0xd1 && b[2] == 0x9e) { snprintf(o, sizeof o, "RAW cmd=%d uid=%d", b[3] >> 4, b[3] & 15); return o; }
 	DnsMsg m;
 	std::string e = dns_parse_strict(b, m);
-	if (!e.empty()) return "UNPARSABLE(" + e + ") " + hexs(b, 16);
+	if (!e.empty()) return "UNPARSABLE(" + e + ") " + hexs(b, getenv("IOSIM_TRACE_FULL") ? 4096 : 16);
 	std::string qn = m.qd.empty() ? "" : m.qd[0].name.dotted();
 	UpQuery u; bool tun = !qn.empty() && decode_upquery(qn, w->domain, u);
 	std::string s;
